@@ -24,8 +24,14 @@ def inc(f):
     return {"t": "include", "file": f}
 
 
-def text_of(blocks):
-    return apidoc.render(blocks, header=False)[0]
+def text_of(blocks, style=None):
+    return apidoc.render(blocks, style, header=False)[0]
+
+
+def file_style(rnd):
+    """surface of one file: every file of a project may have its own line ends, indentation and trailing blanks
+    (comments and quoting are C05's subject, with its own controls for finding F-29)"""
+    return apidoc.Style(nl=rnd.choice(["\n", "\r\n", "\r"]), indent=rnd.choice(["", "  ", "\t"]), trailing=rnd.choice([True, False]), rnd=rnd)
 
 
 def forms(doc, tx, rnd):
@@ -46,6 +52,11 @@ def forms(doc, tx, rnd):
                 {"part.jst": text_of(rng[:a]), "sub/mid.jst": text_of(rng[a:b] + [inc("part.jst")]), "sub/part.jst": text_of(rng[b:])}))
     res.append(("with_empty_and_comment_files", pre + [inc("e.jst"), inc("inc1.jst"), inc("c.jst")] + post,
                 {"inc1.jst": text_of(rng), "e.jst": "", "c.jst": "# only a comment\n\n"}))
+    # every file with a surface of its own (line ends, indentation, comments, quoting)
+    res.append(("nested_dirs_styled", pre + [inc("sub/inc1.jst")] + post,
+                {"sub/inc1.jst": text_of(rng[:h] + [inc("deep/inc2.jst")], file_style(rnd)), "sub/deep/inc2.jst": text_of(rng[h:], file_style(rnd))}))
+    res.append(("two_from_one_place_styled", pre + [inc("a.jst"), inc("dir/b.jst")] + post,
+                {"a.jst": text_of(rng[:h], file_style(rnd)), "dir/b.jst": text_of(rng[h:], file_style(rnd))}))
     # MACRO and INCLUDE together: the definition of a macro in an included file, its PASTE in another one
     MACROABLE = {"info", "server", "type", "enum", "url", "method", "rpc"}
     if all(b["t"] in MACROABLE for b in rng):
